@@ -80,6 +80,16 @@ func classify(r *evid.Recorder, c Case) {
 		if m.Yaml != nil || m.Lock != nil {
 			r.Class("module-with-v1-objects")
 		}
+		if strings.HasPrefix(m.Anchor, "google/protobuf/") {
+			r.Class("module-shipping-a-well-known-type-path")
+			for _, o := range c.Mods {
+				for _, d := range o.Deps {
+					if d == i {
+						r.Class("dependency-only-through-a-well-known-type-import")
+					}
+				}
+			}
+		}
 		if len(m.Twins) > 0 {
 			r.Class("module-depending-on-a-fork-of-a-dependency")
 		}
